@@ -11,6 +11,7 @@
    Only pinned statements; proofs are in SandboxProps.v. *)
 From Coq Require Import NArith List String Bool.
 From Garden Require Import Sandbox SandboxProps gen.Builtins.
+From Garden Require Machine MachineBound.
 Import ListNotations.
 Open Scope string_scope.
 Open Scope nat_scope.
@@ -68,3 +69,22 @@ Example ticks_bound_counter_machine :
   forall limit, halts_within nat (counter_step limit) (limit - 0) 0.
 Proof. exact counter_machine_instance. Qed.
 Print Assumptions ticks_bound_counter_machine.
+
+(* ---- the same bound on the evaluator model itself (Machine.v, the model of the
+   eval loop that is tied to eval.rs by differential execution): under a tick
+   limit L no run can take more than 2 * L + 1 iterations of the eval loop,
+   whatever the program: it ends with a value, an error or a limit error. *)
+Theorem sandbox_terminates : forall p L exprs sl fuel,
+  2 * N.to_nat L + 1 < fuel ->
+  match Machine.run p fuel (Machine.init_state exprs (Some L) sl) with
+  | Machine.ROutOfFuel _ => False
+  | _ => True
+  end.
+Proof. exact MachineBound.limited_run_finishes. Qed.
+Print Assumptions sandbox_terminates.
+
+Theorem sandbox_run_length : forall p L fuel s s',
+  Machine.tick_limit s = Some L -> (Machine.ticks s <= L)%N ->
+  Machine.run p fuel s = Machine.ROutOfFuel s' -> fuel <= MachineBound.potential L s.
+Proof. exact MachineBound.run_bounded. Qed.
+Print Assumptions sandbox_run_length.
